@@ -233,6 +233,19 @@ Theorem C32_chain_resume :
 Proof. exact chain_run_app. Qed.
 
 (* ------------------------------------------------------------------------------------------
+   (8) Mass matrix: with mass_matrix_sqrt^2 * inverse_mass = 1 (what `inverse_mass_matrix ** (-0.5)` gives,
+   entry by entry) the refreshed momentum has variance M = (M^-1)^-1 and the expected kinetic energy
+   per degree of freedom is 1/2, i.e. p ~ N(0, M) is the momentum marginal of exp(-K); refreshing with the
+   square root of the inverse mass instead is consistent only for unit mass. *)
+Theorem C32_mass_consistency :
+  forall s im : Q, (0 < im)%Q -> mass_consistent s im ->
+    (s * s == / im)%Q /\ (expected_kinetic s im == 1 # 2)%Q.
+Proof. intros s im Hp H. split; [apply mass_consistent_variance | apply mass_consistent_equipartition]; assumption. Qed.
+Theorem C32_mass_inverse_sqrt_refuted :
+  forall s im : Q, (s * s == im)%Q -> mass_consistent s im -> (im * im == 1)%Q.
+Proof. exact inverse_sqrt_inconsistent. Qed.
+
+(* ------------------------------------------------------------------------------------------
    Non-vacuity: the ring hypotheses are met by Qc (with its field division), and the checkpoint
    theorem's hypotheses by n = 7 (reads slots 0,1,2 holding leaves 0,4,6). *)
 From Coq Require Import Qcanon.
